@@ -15,7 +15,7 @@ from .common import clist, cnat, cbool
 
 FL = {"asyncio": "Aio", "trio": "Trio", "threading": "Thr"}
 FLS = ["asyncio", "trio", "threading"]
-N_VALUES = 13
+N_VALUES = 14
 N_EXC = 15
 N_EXC_EXCEPTION = 12
 
@@ -252,6 +252,8 @@ class Builder:
             spec["drop"] = True
         elif self.rng.random() < 0.15:
             spec["falsy"] = True
+        if self.rng.random() < 0.15:
+            spec["subclass"] = True      # an instance of an undecorated subclass that replaces the constructor
         self.services[str(sid)] = spec
         return sid
 
@@ -390,8 +392,15 @@ def gen_fail(rng):
         fails.append(["p", pid, fl, end])
         if mode < 0.5:
             b.main.append(["adopt", 0, pid])
-        elif mode < 0.75:
+        elif mode < 0.7:
             h.append(["adopt", 0, pid])
+        elif mode < 0.8:
+            # submitted from a thread that drives an event loop of its own (outside thread or thread payload)
+            if rng.random() < 0.5:
+                h.append(["adopt_private_loop", 0, pid])
+            else:
+                parent = b.payload("threading", [["adopt_private_loop", 0, pid], ["step"], ["forever"]])
+                h.append(["adopt", 0, parent])
         else:
             pfl = rng.choice(FLS)
             parent = b.payload(pfl, [["adopt", 0, pid]] + rnd_bystander_script(rng, pfl), rnd_cleanup(rng, pfl))
@@ -441,7 +450,7 @@ def gen_stop(rng):
         caller = b.payload(cfl, script + rnd_bystander_script(rng, cfl), rnd_cleanup(rng, cfl))
         h.append(["adopt", 0, caller])
         stalls = cfl != "threading"      # a coroutine caller blocks its own loop while it waits
-    trigger = rng.choice(["shutdown", "shutdown", "sigint", "thread_shutdown", "coroutine_shutdown", "kbd", "fail"])
+    trigger = rng.choice(["shutdown", "shutdown", "sigint", "thread_shutdown", "coroutine_shutdown", "coroutine_shutdown", "kbd", "fail"])
     when = rng.choice(["early", "mid", "late"])
     if rng.random() < 0.3:
         h.append(["gc"])             # a full collection while everything is up (parked payloads are only held by the runtime)
@@ -485,6 +494,11 @@ def gen_stop(rng):
         b.main.insert(0, ["adopt", 0, slow])
         second = rng.choice([0.05, 0.15, 0.3])
         h += [["sleep", second], ["sigint_if_running", 0]]
+    if rng.random() < 0.3:
+        # a trio payload whose shielded cleanup hands follow-up work to the runtime (adopt during the shutdown window)
+        follow = b.payload(rng.choice(FLS), [["step"]])
+        cleaner = b.payload("trio", [["beat", 3000, 0.01]], {"sync": 1, "shield": 0.2, "shield_steps": 2, "adopt": follow})
+        b.main.insert(0, ["adopt", 0, cleaner])
     b.main.append(["accept", 0])
     b.helpers.append(h)
     b.meta = {"family": "stop", "trigger": trigger, "when": when, "second_sigint": second}
@@ -658,12 +672,16 @@ def gen_exec(rng):
         pre = [["step"]] + ([["sleep", rng.choice([0, 0.005, 0.02])]] if rng.random() < 0.5 else [])
         if rng.random() < 0.3:
             pre.append(["section", 300])
-        caller = rng.choice(["outside", "outside", "thread", "other"])
+        caller = rng.choice(["outside", "outside", "thread", "other", "private_trio"])
         if caller == "other" and fl == "threading":
             pre = [["step"]]             # runs in the (coroutine) caller's thread: must not block it
         pid = b.payload(fl, pre + end, args=args, kwargs=kwargs)
         if caller == "outside":
             h.append(["execute", 0, pid])
+        elif caller == "private_trio":
+            # a thread payload that drives a trio run of its own executes from one of that run's worker threads
+            parent = b.payload("threading", [["execute_private_trio", 0, pid], ["step"], ["forever"]])
+            h.append(["adopt", 0, parent])
         else:
             if caller == "thread":
                 cfl = "threading"
@@ -970,7 +988,7 @@ MIX = {
     "C11": [("overlap", 0.6), ("exec", 0.25), ("lifecycle", 0.15)],
     "C12": [("lifecycle", 0.45), ("stop", 0.35), ("churn", 0.2)],
 }
-N_QUICK = {"C01": 128, "C02": 96, "C03": 80, "C10": 72, "C11": 48, "C12": 56}
+N_QUICK = {"C01": 128, "C02": 96, "C03": 80, "C10": 72, "C11": 48, "C12": 72}
 N_THOROUGH = {"C01": 900, "C02": 900, "C03": 700, "C10": 600, "C11": 400, "C12": 400}
 
 
